@@ -57,7 +57,7 @@ Definition add_fixed (z : zone) (W : Z) (f : bool) (hours minutes seconds us : Z
 Definition add_naive (W : Z) (f : bool) (years months weeks days hours minutes seconds us : Z) : result (Z * bool) :=
   match py_add_duration (mkndt W true) years months weeks days hours minutes seconds us with
   | Raise e => Raise e
-  | Ok d => Ok (n_wall d, false)
+  | Ok d => Ok (n_wall d, true)   (* create(tz=None) keeps its default fold=1 on the naive result *)
   end.
 
 (* DateTime.add with calendar units on an aware value: add_duration on the wall clock, then create(tz=self.tz) with the default fold 1 *)
